@@ -78,7 +78,7 @@ void h_msg_dispatch(void) {
     int path = 0, k = 0, ek = 0, responded = 0; char exp[OUTMAX]; int en = 0;
     for (u = 0; u < nu; u++) {
         const menu_t *m = &MENU[sel[u]]; int absolute = (m->txt[0] == ':' || m->txt[0] == '*');
-        int h = absolute || path == 0 ? m->root : (path == 1 ? m->relT : m->relO);
+        int h = absolute || path == 0 ? m->root : path == 1 ? m->relT : path == 2 ? m->relO : 0;
         /* a compound spelling written relative to a non-empty path names PATH:spelling, which this table does not define */
         if (!absolute && path != 0 && m->path != 0) h = 0;
         if (h == 0) { __CPROVER_assert(ek < T.errn && T.err[ek] == -113, "C02: undefined effective header queues -113"); ek++; }
@@ -108,11 +108,14 @@ void h_msg_chunking(void) {
     static inst_t A, B; static trace_t TA, TB; char msg[96]; int sel[NUNITS], nu = NSEL, u;
     for (u = 0; u < NUNITS; u++) sel[u] = pick();
     int len = build(msg, 60, sel, nu); int s2 = pick(); len += build(msg + len, 30, &s2, 1);
-    int cut = nondet_int(); __CPROVER_assume(cut >= 1 && cut < len);
-    init(&A); init(&B);
-    cur = &TA; SCPI_Input(&A.ctx, msg, len); TA.rest = (int) A.ctx.buffer.position;
-    cur = &TB; SCPI_Input(&B.ctx, msg, cut); SCPI_Input(&B.ctx, msg + cut, len - cut); TB.rest = (int) B.ctx.buffer.position;
-    __CPROVER_assert(same(&TA, &TB), "C08: same handler invocations, parameters, output, errors and remainder for every split point");
+    /* every split point, one after the other (the stream is fixed per job, so each pass is concrete for CBMC) */
+    int cut;
+    init(&A); cur = &TA; SCPI_Input(&A.ctx, msg, len); TA.rest = (int) A.ctx.buffer.position;
+    for (cut = 1; cut < len; cut++) {
+        init(&B); TB.n = 0; TB.outn = 0; TB.errn = 0; TB.ovf = 0;
+        cur = &TB; SCPI_Input(&B.ctx, msg, cut); SCPI_Input(&B.ctx, msg + cut, len - cut); TB.rest = (int) B.ctx.buffer.position;
+        __CPROVER_assert(same(&TA, &TB), "C08: same handler invocations, parameters, output, errors and remainder for every split point");
+    }
     __CPROVER_assert(!TA.ovf && !TB.ovf, "trace buffers large enough");
     REACH("msg_chunking");
 }
